@@ -152,7 +152,7 @@ def gen_items(R, count):
                 # keep consistency: raise the whole prefix of i's ranking up to j
                 for j2 in range(m):
                     if P[i][j2] <= P[i][j]:
-                        vals[i][j2] = max(vals[i][j2], 0.25)
+                        vals[i][j2] = max(vals[i][j2], 1.0 if kind == "integer" else 0.25)
         it = {"P": P, "vals": vals, "k": k, "tsf": tsf, "kind": kind, "seed": R.rng.randrange(10 ** 6)}
         if R.rng.random() < 0.3:
             nv = [[None if R.rng.random() < 0.3 else x for x in row] for row in vals]
@@ -169,7 +169,14 @@ def run(R):
               "each threshold), all k / lambda in 1..m, every tie-breaker for k-ARV, square instances for lambda-TSF (optimum by exact Hungarian), "
               "welfare in exact rational arithmetic; the helper's value against the exact ratio and the Lean distortionOf. Non-trivial = m>=3, n>=2.")
     R.assumptions = ["the bound uses the float m^(1/(k+1)) with a 1e-9 relative slack", "every alternative has positive welfare (the helper divides by it)"]
-    run_items(R, gen_items(R, 1200 if R.thorough else 220))
+    items = gen_items(R, 1200 if R.thorough else 220)
+    run_items(R, items)
+    # the theorems C16_karv / C16_tsf assume that the simulated values are what `simulate` returns: check that hypothesis on
+    # the real code too (same comparison as C14's check, incl. rule objects reused across elections and integer elicitors)
+    from harness import c14
+    sub = [{"P": it["P"], "vals": it["vals"], "k": it["k"], "rules": ["karv"] + (["tsf"] if it["tsf"] else []), "kind": it["kind"]}
+           for it in items[:len(items) // 2]]
+    c14.run_items(R, sub)
 
 
 def replay(R, rep):
